@@ -32,6 +32,8 @@ def replay(obj):
     if obj.get("seed_hex"):
         return _passes.replay_history(obj["seed_hex"], obj["history"], "c05", obj["oracle"])
     seed = obj["seed"]
+    if seed and isinstance(seed[0], str) and seed[0].startswith("api:"):
+        return _passes.replay_api(seed[0], obj["history"], obj["oracle"])
     forms = tuple(tuple(f) for f in seed[0]) if seed and isinstance(seed[0], list) else None
     if forms is None:
         return True, "special seed: re-run ./check C05"
